@@ -209,7 +209,10 @@ class Dec:
             end = self.p + n
             out = []
             while self.p < end:
+                p0 = self.p
                 out.append(self.get(es))
+                if self.p <= p0 or self.p > len(self.d):
+                    raise ValueError('malformed array (element of no size, or running past the data)')
             return out
         if c in '({':
             self.pad(8)
@@ -330,7 +333,12 @@ class Conn:
             else:
                 self.s.sendall(data)
             return True
-        except (BrokenPipeError, ConnectionResetError, OSError):
+        except (BrokenPipeError, ConnectionResetError):
+            return False          # the daemon has hung up: what is written from now on is never read
+        except OSError as e:
+            import sys
+            sys.stderr.write('send_raw: %r (%d bytes, %d fds)\n' % (e, len(data), len(fds or [])))
+            self.send_errors = getattr(self, 'send_errors', 0) + 1
             return False
 
     def flush_held(self):
